@@ -390,7 +390,8 @@ func SwitchFamily() []*Program {
 	for n := 1; n <= 3; n++ {
 		for def := -1; def < n; def++ {
 			for fallMask := 0; fallMask < 1<<(n-1); fallMask++ {
-				for _, traced := range []bool{false, true} {
+				for _, variant := range []int{0, 1, 2, 3} {
+					traced, withBreak := variant&1 == 1, variant&2 == 2
 					k := 0
 					site := func() int { k++; return k }
 					var cls []any
@@ -409,6 +410,10 @@ func SwitchFamily() []*Program {
 						if traced {
 							body = []N{{"emit", site(), N{"tr", site(), N{"var", "v"}}}}
 						}
+						if withBreak {
+							// an unlabelled break leaves the switch, not the enclosing loop
+							body = append([]N{{"if", N{"in"}, nodes([]N{{"break", ""}}), nodes([]N{})}}, body...)
+						}
 						cls = append(cls, []any{i == def, exprs, nodes(body), fallMask>>i&1 == 1})
 					}
 					var tag N = N{"var", "v"}
@@ -421,6 +426,65 @@ func SwitchFamily() []*Program {
 					out = append(out, &Program{Funcs: []*Func{f}, Tag: "switch-family"})
 				}
 			}
+		}
+	}
+	return out
+}
+
+// CondFamily enumerates short-circuit conditions: every boolean expression of depth <= 2
+// over input bits with &&, ||, ! in which each leaf is or is not a trace point (a
+// possible suspension), used as if condition, loop condition, tagless switch case
+// and argument-position value.
+func CondFamily() []*Program {
+	var out []*Program
+	type mk func(site func() int) N
+	leaf := func(traced bool) mk {
+		return func(site func() int) N {
+			if traced {
+				return N{"trb", site(), N{"in"}}
+			}
+			return N{"in"}
+		}
+	}
+	leaves := []mk{leaf(false), leaf(true)}
+	var exprs []mk
+	for _, a := range leaves {
+		for _, b := range leaves {
+			a, b := a, b
+			for _, op := range []string{"and", "or"} {
+				op := op
+				exprs = append(exprs, func(s func() int) N { return N{op, []any(a(s)), []any(b(s))} })
+				exprs = append(exprs, func(s func() int) N { return N{op, N{"not", []any(a(s))}, []any(b(s))} })
+				for _, c := range leaves {
+					c := c
+					for _, op2 := range []string{"and", "or"} {
+						op2 := op2
+						exprs = append(exprs, func(s func() int) N { return N{op2, N{op, []any(a(s)), []any(b(s))}, []any(c(s))} })
+						exprs = append(exprs, func(s func() int) N { return N{op2, []any(c(s)), N{op, []any(a(s)), []any(b(s))}} })
+					}
+				}
+			}
+		}
+	}
+	for _, e := range exprs {
+		for use := 0; use < 3; use++ {
+			k := 0
+			site := func() int { k++; return k }
+			var body []N
+			switch use {
+			case 0:
+				body = []N{{"if", []any(e(site)), nodes([]N{{"emit", site(), N{"lit", 1}}}), nodes([]N{{"emit", site(), N{"lit", 0}}})}}
+			case 1:
+				cond := N{"and", N{"lt", N{"var", "i"}, N{"lit", 2}}, []any(e(site))}
+				body = []N{{"for", "", nodes([]N{{"assign", "i", N{"lit", 0}}}), []any(cond), nodes([]N{{"inc", "i"}}), nodes([]N{{"emit", site(), N{"var", "i"}}})}}
+			case 2:
+				cls := []any{[]any{false, []any{[]any(e(site))}, nodes([]N{{"emit", site(), N{"lit", 1}}}), false},
+					[]any{true, []any{}, nodes([]N{{"emit", site(), N{"lit", 0}}}), false}}
+				body = []N{{"switch", false, N{"lit", 0}, cls, ""}}
+			}
+			body = append(body, N{"return", N{"var", "i"}})
+			f := &Func{Name: "f0", Locals: []string{"i"}, Body: body}
+			out = append(out, &Program{Funcs: []*Func{f}, Tag: "cond-family"})
 		}
 	}
 	return out
